@@ -7,6 +7,8 @@ From CV Require Import Model.Base Model.Events Model.Attempt Model.Sched Proofs.
 
 (* an attempt asks for a retry exactly when it failed (failed step, failed hook, failed World creation) and
    retries are left; the counters move by one: attempt k carries (k, N-k) *)
+(* [definitional] unfolds the model's own definition: a pinned reading of the model (it breaks when the model is edited),
+   not evidence for the property by itself — the model is tied to the code by the correspondence check *)
 Theorem C05_attempt_retry_decision :
   forall i, ao_retry (run_attempt i) =
     match ai_retr i with
@@ -16,6 +18,8 @@ Theorem C05_attempt_retry_decision :
 Proof. exact retry_spec. Qed.
 
 (* the scheduler re-queues exactly then, with those counters, stamped with the time the failed attempt ended *)
+(* [definitional] unfolds the model's own definition: a pinned reading of the model (it breaks when the model is edited),
+   not evidence for the property by itself — the model is tied to the code by the correspondence check *)
 Theorem C05_requeue :
   forall e failed now,
     next_try e failed now =
